@@ -99,21 +99,33 @@ type c17hCase struct {
 	Off       int64  `json:"off"`
 	Len       int    `json:"len"`
 	Behaviour string `json:"server_behaviour"`
+	Head      int    `json:"head_mode,omitempty"` // 0 = HEAD answers with Content-Length, 1 = 200 without it, 2 = 405
 }
 
 func TestVerif_C17_HTTP(t *testing.T) {
 	R := vkit.New("C17")
 	defer R.Finish()
-	R.Rule = "http variant: the real NewRemoteHTTPFileAsIoReaderAt (range cache + net/http client) against a loopback server; case = (offset 0..size+1, length 0..size+2) on a 12-byte file x behaviour of the server for the fetch this read triggers (206 exact, 200 whole file, 404/500/503 with a long page, 416, 206 with half or no body); then the same read again with a healthy server; oracle = exactly the file's bytes or an error (an error is demanded when the server answered with an error status or a short body and when the read reaches past the end), and the second read returns the right bytes (nothing from a failed fetch is cached); non-trivial = faulty behaviour and a read inside the file"
+	R.Rule = "http variant: the real NewRemoteHTTPFileAsIoReaderAt (range cache + net/http client) against a loopback server; case = (offset 0..size+1, length 0..size+2) on a 12-byte file x behaviour of the server for the fetch this read triggers (206 exact, 200 whole file, 404/500/503 with a long page, 416, 206 with half or no body); then the same read again with a healthy server; and every read against a healthy server that answers HEAD with 200 but no Content-Length, or with 405; oracle = exactly the file's bytes or an error (an error is demanded when the server answered with an error status or a short body and when the read reaches past the end), and the second read returns the right bytes (nothing from a failed fetch is cached); non-trivial = faulty behaviour and a read inside the file"
 	file := []byte("0123456789ab")
 	behaviours := c17hBehaviours()
 	var mu sync.Mutex
 	current := behaviours[0]
+	headMode := 0
 	gets := 0
 	srv := httptest.NewServer(http.HandlerFunc(func(w http.ResponseWriter, r *http.Request) {
 		if r.Method == "HEAD" {
-			w.Header().Set("Content-Length", strconv.Itoa(len(file)))
-			w.WriteHeader(http.StatusOK)
+			mu.Lock()
+			hm := headMode
+			mu.Unlock()
+			switch hm {
+			case 1: // 200 without a Content-Length (dynamic HEAD answers, some CDNs)
+				w.WriteHeader(http.StatusOK)
+			case 2: // HEAD not allowed: the size has to come from a ranged GET
+				w.WriteHeader(http.StatusMethodNotAllowed)
+			default:
+				w.Header().Set("Content-Length", strconv.Itoa(len(file)))
+				w.WriteHeader(http.StatusOK)
+			}
 			return
 		}
 		mu.Lock()
@@ -137,14 +149,22 @@ func TestVerif_C17_HTTP(t *testing.T) {
 	idx := int64(0)
 	run := func(c c17hCase, b c17hBehaviour) {
 		// a fresh reader per case: nothing cached
+		mu.Lock()
+		headMode = c.Head
+		current = behaviours[0] // the size may be learnt from a ranged GET: answered by a healthy server
+		mu.Unlock()
 		rd, _, err := NewRemoteHTTPFileAsIoReaderAt(context.Background(), srv.URL+"/epoch.car")
 		if err != nil {
-			R.Internal("cannot open the remote file: %v", err)
+			if c.Head == 0 {
+				R.Internal("cannot open the remote file: %v", err)
+			} else {
+				R.Outcome(fmt.Sprintf("head-mode-%d:open-refused", c.Head)) // an error is an acceptable answer
+			}
 			return
 		}
 		defer rd.Close()
 		viol := func(class, what string) {
-			R.Violation("C17|http|"+class+"|"+b.Name, fmt.Sprintf("server behaviour %s, ReadAt(len %d, off %d): %s", b.Name, c.Len, c.Off, what), map[string]interface{}{"variant": "http", "case": c})
+			R.Violation("C17|http|"+class+"|"+b.Name, fmt.Sprintf("server behaviour %s, HEAD mode %d, ReadAt(len %d, off %d): %s", b.Name, c.Head, c.Len, c.Off, what), map[string]interface{}{"variant": "http", "case": c})
 		}
 		judge := func(step string, n int, rerr error, p []byte, mustFail bool) {
 			inside := c.Off >= 0 && c.Off+int64(c.Len) <= size
@@ -200,6 +220,9 @@ func TestVerif_C17_HTTP(t *testing.T) {
 			c.Off = int64(m["off"].(float64))
 			c.Len = int(m["len"].(float64))
 			c.Behaviour, _ = m["server_behaviour"].(string)
+			if hm, ok := m["head_mode"].(float64); ok {
+				c.Head = int(hm)
+			}
 		}
 		for _, b := range behaviours {
 			if b.Name == c.Behaviour {
@@ -227,6 +250,21 @@ func TestVerif_C17_HTTP(t *testing.T) {
 				if idx%197 == 0 {
 					R.Sample(c)
 				}
+			}
+		}
+	}
+	// the other ways a server answers HEAD (the reader learns the file size from it), healthy range answers
+	for hm := 1; hm <= 2; hm++ {
+		for off := int64(0); off <= size+1; off++ {
+			for l := 0; l <= int(size)+2; l++ {
+				mine := vkit.Mine(idx)
+				idx++
+				if !mine {
+					continue
+				}
+				c := c17hCase{Off: off, Len: l, Behaviour: behaviours[0].Name, Head: hm}
+				run(c, behaviours[0])
+				R.Case(off+int64(l) <= size && l > 0, "")
 			}
 		}
 	}
